@@ -184,6 +184,65 @@ for n in (2, 3):
     ap.append(ape(f"Skinny128::setTK{n}", f"ard128_tk{n}_step", "loop", 0, P, ["schedule_0", f"TK{n}"], ["schedule_0", f"TK{n}"]))
 mods.append({"name": "Arduino128Pieces", "imports": ["Arduino128Leaf"], "entries": ap})
 
+# ---------------------------------------------------------------- Arduino port, Skinny-64
+A64 = "arduino/libraries/Skinny/Skinny64.cpp"
+al = [e(A64, "skinny64_sbox", "ard64_sbox", [], 4), e(A64, "skinny64_inv_sbox", "ard64_inv_sbox", [], 4),
+      e(A64, "skinny64_LFSR2", "ard64_LFSR2", [], 4), e(A64, "skinny64_LFSR3", "ard64_LFSR3", [], 4)]
+mods.append({"name": "Arduino64Leaf", "entries": al})
+TH64 = {"s": {"bytes": 160}, "r": {"bits": 8}}
+def ape64(func, lean, kind, index, params, outs, ins=None):
+    d = pe(A64, func, lean, kind, index, [], params, outs, ins)
+    d["this"] = TH64; d["windows"] = {"schedule": 4}
+    return d
+ap = []
+for fn, nm in (("Skinny64::encryptBlock", "enc"), ("Skinny64::decryptBlock", "dec")):
+    P = {"output": {"bytes": 8, "out": True}, "input": {"bytes": 8}}
+    ap.append(ape64(fn, f"ard64_{nm}_load", "seg", 0, P, ["state"]))
+    ap.append(ape64(fn, f"ard64_{nm}_round", "loop", 0, P, ["state"], ["state", "schedule_0"]))
+    ap.append(ape64(fn, f"ard64_{nm}_store", "seg", 1, P, ["output"], ["state"]))
+for tw in (0, 1):
+    P = {"key": {"bytes": 8}, "tweaked": {"const": tw}}
+    if tw == 0:
+        ap.append(ape64("Skinny64::setTK1", "ard64_tk1_load", "seg", 0, P, ["TK1", "rc"]))
+    ap.append(ape64("Skinny64::setTK1", f"ard64_tk1_step_t{tw}", "loop", 0, P, ["schedule_0", "TK1", "rc"], ["TK1", "rc"]))
+P = {"key": {"bytes": 8}}
+ap.append(ape64("Skinny64::xorTK1", "ard64_xor_tk1_load", "seg", 0, P, ["TK1"]))
+ap.append(ape64("Skinny64::xorTK1", "ard64_xor_tk1_step", "loop", 0, P, ["schedule_0", "TK1"], ["schedule_0", "TK1"]))
+for n in (2, 3):
+    ap.append(ape64(f"Skinny64::setTK{n}", f"ard64_tk{n}_load", "seg", 0, P, [f"TK{n}"]))
+    ap.append(ape64(f"Skinny64::setTK{n}", f"ard64_tk{n}_step", "loop", 0, P, ["schedule_0", f"TK{n}"], ["schedule_0", f"TK{n}"]))
+mods.append({"name": "Arduino64Pieces", "imports": ["Arduino64Leaf"], "entries": ap})
+
+# ---------------------------------------------------------------- Arduino port, Mantis-8
+AM = "arduino/libraries/Skinny/Mantis8.cpp"
+al = [e(AM, "mantis_sbox", "ardm_sbox", [], 4, None, "direct"),
+      e(AM, "mantis_update_tweak", "ardm_update_tweak"), e(AM, "mantis_update_tweak_inverse", "ardm_update_tweak_inverse"),
+      e(AM, "mantis_shift_rows", "ardm_shift_rows"), e(AM, "mantis_shift_rows_inverse", "ardm_shift_rows_inverse"),
+      e(AM, "mantis_mix_columns", "ardm_mix_columns"),
+      e(AM, "mantis_unpack_rotated_block", "ardm_unpack_rotated_block", [], None, {"block": {"bytes": 8, "out": True}, "buf": {"bytes": 8}}),
+      {"file": AM, "table": "rc", "lean": "ardm_rc", "flags": []}]
+mods.append({"name": "ArduinoMantisLeaf", "entries": al})
+STF = [["k0", 32, 2], ["k0prime", 32, 2], ["k1", 32, 2], ["tweak", 32, 2]]
+THM = {"st": {"obj": 32, "fields": STF}}
+def apem(func, lean, kind, index, params, outs, ins=None, th=THM):
+    d = pe(AM, func, lean, kind, index, [], params, outs, ins)
+    d["this"] = th; d["windows"] = {"r": 8}
+    return d
+ap = []
+P = {"output": {"bytes": 8, "out": True}, "input": {"bytes": 8}}
+ap.append(apem("Mantis8::encryptBlock", "ardm_pre", "seg", 0, P, ["state", "tweak", "k1"]))
+ap.append(apem("Mantis8::encryptBlock", "ardm_fwd", "loop", 0, P, ["state", "tweak"], ["state", "tweak", "k1", "r_0"]))
+ap.append(apem("Mantis8::encryptBlock", "ardm_mid", "seg", 1, P, ["state", "k1"], ["state", "k1"]))
+ap.append(apem("Mantis8::encryptBlock", "ardm_bwd", "loop", 1, P, ["state", "tweak"], ["state", "tweak", "k1", "r_m1"]))
+ap.append(apem("Mantis8::encryptBlock", "ardm_post", "seg", 2, P, ["output"], ["state", "tweak", "k1", "st"]))
+mods.append({"name": "ArduinoMantisPieces", "imports": ["ArduinoMantisLeaf"], "entries": ap})
+THMO = {"st": {"obj": 32, "fields": STF, "out": True}}
+kl = [dict(e(AM, "Mantis8::swapModes", "ardm_swap_modes"), this=THM),
+      dict(e(AM, "Mantis8::setKey", "ardm_set_key", [], None, {"key": {"bytes": 16}, "len": {"const": 16}}), this=THMO),
+      dict(e(AM, "Mantis8::setTweak", "ardm_set_tweak", [], None, {"tweak": {"bytes": 8}, "len": {"const": 8}}), this=THM),
+      dict(e(AM, "Mantis8::setTweak", "ardm_set_tweak_null", [], None, {"tweak": {"null": True}, "len": {"const": 8}}), this=THM)]
+mods.append({"name": "ArduinoMantisKey", "imports": ["ArduinoMantisLeaf"], "entries": kl})
+
 # ---------------------------------------------------------------- counters
 mods.append({"name": "CounterLeaf", "entries": [
     e(S128, "skinny128_inc_counter", "skinny128_inc_counter", [], None, {"counter": {"bytes": 16}}),
